@@ -300,6 +300,10 @@ impl Scenario for WireSim {
                     ),
                 );
             }
+            if !is_h2 && s.version != http::Version::HTTP_11 {
+                // "... and HTTP/1.1 otherwise": whatever version the caller's request was labelled with
+                viol("wrong_connection_protocol", "http1_version", format!("request {} ({:?}) was written as {:?} on an HTTP/1 connection; the connection speaks HTTP/1.1", q.id, q.ver, s.version));
+            }
             if is_h2 != (q.ver == Ver::H2) {
                 nontrivial = true;
                 out.count(if is_h2 { "probe.http1_request_on_h2_connection" } else { "probe.h2_request_on_http1_connection" });
